@@ -295,6 +295,37 @@ func ruleGoroutineWritesNoCapturedResult(rule string) func(*Ctx) {
 						}
 					}
 				}
+				// ... and the variables in which an inlined helper keeps its results (`var n int; var err error` ahead of the
+				// inlined body): error-typed locals of the enclosing function that are declared without a value and are also
+				// used outside the goroutine
+				for g := f; g != nil; g = g.Outer {
+					ginfo := g.Pkg.TypesInfo
+					ast.Inspect(g.Body(), func(m ast.Node) bool {
+						if m == ast.Node(lit) {
+							return false
+						}
+						ds, ok := m.(*ast.DeclStmt)
+						if !ok {
+							return true
+						}
+						gd, ok := ds.Decl.(*ast.GenDecl)
+						if !ok || gd.Tok != token.VAR {
+							return true
+						}
+						for _, sp := range gd.Specs {
+							vs, ok := sp.(*ast.ValueSpec)
+							if !ok || len(vs.Values) != 0 {
+								continue
+							}
+							for _, id := range vs.Names {
+								if o := ginfo.Defs[id]; o != nil && isErrorType(o.Type()) {
+									outer[o] = true
+								}
+							}
+						}
+						return true
+					})
+				}
 				bad := ""
 				ast.Inspect(lit.Body, func(m ast.Node) bool {
 					switch x := m.(type) {
